@@ -767,7 +767,23 @@ var natives = map[string]extFn{
 			return tuple{uint64(v), iface{}}
 		}
 		if (base != 10 && base != 16) || bits != 64 {
-			e.unsupported("strconv.ParseInt on a symbolic string with base/bitSize outside the model")
+			// outside the symbolic model (e.g. base 0 with its prefixes): enumerate the bytes (they come from
+			// small domains) and run the real function
+			bs := strBytes(a[0])
+			buf := make([]byte, len(bs))
+			for i, c := range bs {
+				switch c := c.(type) {
+				case uint64:
+					buf[i] = byte(c)
+				case *symv:
+					buf[i] = byte(e.concretize(c.t))
+				}
+			}
+			v, err := strconv.ParseInt(string(buf), base, bits)
+			if err != nil {
+				return tuple{uint64(v), mkError(err.Error())}
+			}
+			return tuple{uint64(v), iface{}}
 		}
 		v, ok := e.mParseInt(strBytes(a[0]), base, true)
 		if !ok {
